@@ -55,7 +55,8 @@ class AnnotationDAGBuilder:
         parameters = [
             (name, bool(parameter.empty))
             for name, parameter in inspect.signature(run_method).parameters.items()
-            if name not in ('self', 'args', 'kwargs')
+            # *args and **kwargs are recognised by their kind: an ordinary parameter called kwargs needs an annotation
+            if name != 'self' and parameter.kind not in (parameter.VAR_POSITIONAL, parameter.VAR_KEYWORD)
         ]
 
         if not annotations and parameters:
